@@ -2,7 +2,7 @@
    projections P-args, P-algo, P-layout, P-config, P-client, P-stream.  Strings travel
    hex-encoded so that arbitrary ASCII (spaces, control characters) survives the word split. *)
 From Coq Require Import String Ascii ZArith DecimalString Decimal List Bool.
-From HS Require Import Base PyVal Algo Shard RefsCodec Args Verdict Config Client StreamModel FS Ops Sched Lin Codec.
+From HS Require Import Base PyVal Algo Shard RefsCodec Args Verdict Config Client StreamModel Layout FS Ops Sched Lin Codec.
 Import ListNotations.
 Open Scope string_scope.
 
@@ -197,6 +197,18 @@ Definition layerA (ws : list string) : string :=
       match read_cps f with
       | Some f' => join "|" (map (fun l => show_cps (strip_cp l)) (split_lines_cp f'))
       | None => "PARSE"
+      end
+  | ["render"; d; w; kind; h1; h2] =>
+      (* relative path of an address under the README layout (Layout.v); digests travel as plain hex words *)
+      match read_nat d, read_nat w with
+      | Some d', Some w' =>
+          if String.eqb kind "obj" then render_string d' w' (SObj h1)
+          else if String.eqb kind "pid" then render_string d' w' (SPidRef h1)
+          else if String.eqb kind "cid" then render_string d' w' (SCidRef h1)
+          else if String.eqb kind "meta" then render_string d' w' (SMeta h1 h2)
+          else if String.eqb kind "delpid" then render_string d' w' (SDel (SPidRef h1))
+          else "PARSE"
+      | _, _ => "PARSE"
       end
   | ["consts"] =>
       (* the constants the model is written against, for comparison with the live class (P-consts) *)
